@@ -158,12 +158,23 @@ def logical_env():
             def __call__(self, x):
                 return x is True
 
+        class FVL(FilterFunction):
+            """(ValueType, LogicalType) -> LogicalType: the logical parameter is not the first one"""
+            arg_types = [ExpressionType.VALUE, ExpressionType.LOGICAL]
+            return_type = ExpressionType.LOGICAL
+
+            def __call__(self, v, x):
+                return x is True and v == 1 and not isinstance(v, bool)
+
         env = JSONPathEnvironment()
         env.function_extensions["fl_l"] = FL()
+        env.function_extensions["fvl_l"] = FVL()
         reg = dict(rt.BUILTINS)
         reg["fl_l"] = (("L",), "L")
+        reg["fvl_l"] = (("V", "L"), "L")
         impls = dict(ev.BUILTIN_IMPL)
         impls["fl_l"] = lambda x: x is True
+        impls["fvl_l"] = lambda v, x: x is True and v is not ev.NOTHING and v == 1 and not isinstance(v, bool)
         _LENV["env"] = (env, reg, ev.Env(reg, impls))
     return _LENV["env"]
 
@@ -467,7 +478,8 @@ def run_shard(desc):
         for idx, e in enumerate(bool_exprs(desc["n"])):
             if idx % desc.get("of", 1) != desc.get("part", 0):
                 continue
-            for q in (f"$[?fl_l({e})]", f"$[?!fl_l({e}) || @.d]", f"$[?fl_l(fl_l({e}) && @.d)]"):
+            for q in (f"$[?fl_l({e})]", f"$[?!fl_l({e}) || @.d]", f"$[?fl_l(fl_l({e}) && @.d)]", f"$[?fvl_l(@.a, {e})]",
+                      f"$[?count(@[?{e}]) == 0 || fvl_l(1, {e})]"):
                 sh.states += 1
                 sh.transitions += 3
                 sh.traces += 1
